@@ -516,6 +516,9 @@ impl Property for C10 {
             Tier::Thorough => 300_000,
         }
     }
+    fn raw_target(&self) -> Option<(&'static str, fn(&[u8]) -> Outcome)> {
+        Some(("block_bytes", fuzz_response))
+    }
     fn rule(&self) -> String {
         "Heartbeat-driver scenarios on regtest in which the block source answers with generated response contents: valid mined blocks in any order, duplicates, orphans, children of stable-only ancestors, the anchor itself, random/truncated/bit-flipped bytes, fresh blocks with timestamp = median-time-past / +1 / now+2h / now+2h+1 / far future, wrong bits, insufficient work, bodies with a duplicated transaction (merkle-preserving), coinbase not first, empty body, unfixed swaps, witness-only edits (each with original or re-mined header), at any position; announced headers that are valid, unconnected, duplicate, bit-flipped or garbage of any length (built through candid decoding). Oracle: an independent predicate (hand-written block grammar, parent live, not present, C11 header rules at the mock time from the big-integer model, C12 structure) decides each block in order; after the heartbeat that processes the response the tree = previous tree + the admitted prefix, exactly one error counter moved by exactly 1 iff a block was refused, no later block of that response is admitted, every model-based query oracle (tip agreement, UTXO sets, bookkeeping exactness) still holds, stored announced headers are valid, connected and not in the tree, and the heartbeat never traps. Non-trivial: a response with a valid block after an invalid one, or an invalid element at position >= 1, or an orphan whose parent arrives later; distinct = (response shape, verdict list) hashes.".into()
     }
